@@ -18,8 +18,8 @@ produced (CancelledError, a value, a failure); (2) the synchronous compilation r
 outcomes yields exactly the same note trace and the same final value / uncaught exception; (3) the
 returned Deferred fired exactly once; (4) cancel() of the returned Deferred while the function is
 suspended at await k reached X_k and no other X; cancel() after completion reaches nothing;
-(5) a cancel() of the root Deferred issued from inside the body of a nested function while the root
-function is waiting on that nested function (re-entrant: the awaited function is running, nothing
+(5) a cancel() of the root Deferred issued from inside a function body (nested function while the root
+function is waiting on that nested function, or the root function itself while it is running) (re-entrant: the awaited function is running, nothing
 un-fired is awaited) cancels no un-fired X, and the run still satisfies (1)-(3).
 
 "Hot" harness Deferreds: X_k may carry a callback that first fires the Deferred the function is
@@ -27,13 +27,24 @@ waiting on (the function is resumed and may await X_k while X_k is running that 
 returns another value / raises / returns a pending Deferred; X_k's outcome is what a callback added
 at that moment would see, i.e. what the running callback produces - never its input.
 
-Fired-and-paused harness Deferreds: X_k may have been fired and explicitly pause()d before the
-function starts, with 0..2 callbacks queued behind the pause (wrap the value / turn a failure into a
-value / raise); the scheduler unpause()s it later or never within the run.  Its outcome is what the
-queued callbacks produce; the function must not observe anything of X_k before unpause() (checked at
-the observation itself), cancel() reaches X_k but is a no-op on a fired Deferred, and a run whose
-function still waits for a never-unpaused X_k must end un-fired with the synchronous replay stopping
-at exactly that await.
+Explicitly paused harness Deferreds: any X_k (plain, chained or hot) may be pause()d - when it is built
+(e.g. fired and paused before the function starts) or by the scheduler, possibly while the function
+already waits on it - with 0..2 callbacks queued behind (wrap the value / turn a failure into a value /
+raise); the scheduler unpause()s it later or never within the run.  Its outcome is what the queued
+callbacks produce from the source result and exists from the moment a pass-through marker callback
+(attached last at build time) runs; the function must not observe anything of X_k before that
+(checked at the observation itself); cancel() must still be called on X_k and has the effect the
+Deferred rules give it in X_k's state (un-fired: canceller / CancelledError; waiting on an inner
+Deferred: forwarded; fired: no-op) but delivers nothing while the pause lasts; a run whose function
+still waits for a never-unpaused X_k must end un-fired with the synchronous replay stopping at
+exactly that await.
+
+returnValue(): a quarter of the programs leave generator-flavour functions through
+`returnValue(v)` (deprecated, still supported) where the other flavours `return v`.
+
+Cancelling the root Deferred from the root function's own body (it is running, resumed at least
+once) is generated too: only "fires exactly once with the function's outcome", the usual trace
+equality and "no un-fired X is cancelled" are asserted for it.
 
 Exceptions that are BaseException but not Exception (a harness class, asyncio.CancelledError,
 SystemExit, KeyboardInterrupt) are raised by program nodes and delivered as failing X outcomes in
@@ -44,9 +55,8 @@ awaited Deferred).  GeneratorExit is not used.  All driving calls of the harness
 Guards: programs never return a Deferred, never use returnValue, never re-await a Deferred (each
 dynamic await gets its own X_k), never yield a fired-and-consumed Deferred; a function that
 swallows CancelledError and carries on is legitimate - the final outcome is then whatever the
-synchronous replay produces; the re-entrant cancel node is executed only
-while the root function's frame is not on the Python stack (root really waiting - cancelling a
-function that is running is outside the statement) and is a plain note in the synchronous replay;
+synchronous replay produces; the re-entrant cancel node is skipped while the
+root Deferred is not yet known (first synchronous segment) and is a plain note in the synchronous replay;
 cancel() of an X that already has its outcome is a no-op and not judged; an X_k fired before it is awaited simply behaves as pre-fired.
 """
 import hashlib
@@ -59,7 +69,8 @@ RULE = ("random ASTs (<= 3 functions, <= 9 static awaits, loops <= 3 iterations,
         "compiled three ways; 10 harness Deferreds per run, each pre-fired or fired later (value or failure; plain or "
         "chained to an inner Deferred, or 'hot': carrying a callback that resumes the waiting function and then changes "
         "the result / raises / returns a pending Deferred, or fired-and-paused with 0..2 callbacks queued behind the "
-        "pause and unpaused later or never; failures are Exception or BaseException-only classes; 4 canceller "
+        "pause - paused at build time or by the scheduler while the function may already wait on it, also when chained or "
+        "hot - and unpaused later or never; a quarter of the programs use returnValue() in generators; failures are Exception or BaseException-only classes; 4 canceller "
         "behaviours) in a scheduler-chosen order; raise nodes use the same 5 exception classes; 40% of the "
         "multi-function programs contain re-entrant cancel-the-root nodes in nested functions; per program and flavour "
         "(inlineCallbacks / ensureDeferred): one run without cancellation, one run per suspension point with cancel() "
@@ -78,10 +89,12 @@ FLOORS = {"runs_compared_with_sync_replay": 5000, "await_observations_checked": 
           "awaits_of_deferred_running_its_callback_defer": 500, "hot_callback_resumed_the_waiting_function": 2000,
           "reentrant_cancels_while_root_waiting": 2000,
           "reentrant_cancel_then_nested_function_finished_without_suspending": 500,
-          "paused_deferreds_unpaused": 2000, "awaits_of_fired_but_paused_deferred": 1000,
+          "paused_deferreds_unpaused": 2000, "awaits_of_explicitly_paused_deferred": 1000, "awaits_of_paused_chained_or_hot_deferred": 300,
+          "unpauses_of_chained_or_hot_deferreds": 500, "pauses_while_the_function_waits_on_the_deferred": 300,
           "runs_ending_suspended_on_never_unpaused_deferred": 200, "cancellations_while_awaiting_paused_deferred": 300,
           "baseexception_failures_fired_into_awaited_deferreds": 1000, "baseexception_observed_at_await": 500,
-          "baseexception_final_outcomes": 300, "baseexception_raised_before_first_suspension": 50}
+          "baseexception_final_outcomes": 300, "baseexception_raised_before_first_suspension": 50,
+          "returnvalue_calls": 1000, "reentrant_cancels_while_root_running": 500}
 READY = True
 
 M = 10
@@ -152,7 +165,8 @@ class Gen:
         self.size = 0
         self.nfuncs = rng.choice((1, 1, 2, 2, 3))
         # some programs let nested functions cancel the ROOT Deferred from inside their bodies
-        self.reentrant = self.nfuncs > 1 and rng.random() < 0.4
+        self.reentrant = rng.random() < (0.4 if self.nfuncs > 1 else 0.2)
+        self.use_returnvalue = rng.random() < 0.25     # generator flavour: returnValue(v) instead of `return v`
 
     def new_site(self):
         self.site += 1
@@ -174,7 +188,7 @@ class Gen:
             c = r.random()
             if depth == 0 and c < 0.36 and r.random() < 0.4:
                 c = 0.6             # top level: prefer try blocks to bare awaits
-            if self.reentrant and fn > 0 and r.random() < 0.12:
+            if self.reentrant and r.random() < (0.12 if fn > 0 else 0.05):
                 return ("cancelroot", self.new_site())
             if c < 0.36:
                 if self.awaits >= 9:
@@ -206,7 +220,7 @@ class Gen:
             if c < 0.86:
                 if not last:
                     continue
-                return ("return", r.choice(("r", "r", 1, 2, 3)))
+                return ("return", r.choice(("r", "r", 1, 2, 3)), self.use_returnvalue and r.random() < 0.7)
             if c < 0.93:
                 if not last or depth == 0:
                     continue
@@ -280,7 +294,11 @@ def emit(out, stmts, ind, fl, loopdepth=0):
             out.append(ind + "for i%d in range(%d):" % (loopdepth, s[1]))
             emit(out, s[2], ind + "    ", fl, loopdepth + 1)
         elif op == "return":
-            out.append(ind + ("return r" if s[1] == "r" else "return ('R', %d)" % s[1]))
+            val = "r" if s[1] == "r" else "('R', %d)" % s[1]
+            if fl == "gen" and len(s) > 2 and s[2]:
+                out += [ind + "H.rv_count()", ind + "H.returnValue(%s)" % val]     # called straight from the generator's frame
+            else:
+                out.append(ind + "return " + val)
         elif op == "raise":
             out.append(ind + "raise H.make_exc(%r, ('p', %d))" % (s[2], s[1]))
         elif op == "break":
@@ -321,6 +339,7 @@ class H:
         self.inlineCallbacks = tw["defer"].inlineCallbacks
         self.ensureDeferred = tw["defer"].ensureDeferred
         self.succeed = tw["defer"].succeed
+        self.returnValue = tw["defer"].returnValue
 
     def reset(self, mode, plan, outcomes=None):
         self.mode = mode
@@ -368,8 +387,10 @@ class H:
             run.ctx.count("awaits_of_deferred_running_its_callback_%s" % self.plan[k]["hot"])
         if self.outcome[k] is None:
             self.reentrant_pending = False      # about to suspend
-        if run.still_paused[k]:
-            run.ctx.count("awaits_of_fired_but_paused_deferred")
+        if run.paused_now[k] and self.outcome[k] is None:
+            run.ctx.count("awaits_of_explicitly_paused_deferred")
+            if self.plan[k]["chained"] or self.plan[k]["hot"]:
+                run.ctx.count("awaits_of_paused_chained_or_hot_deferred")
         return self.xs[k]
 
     def C(self, site):
@@ -387,12 +408,13 @@ class H:
         if self.mode != "async" or self.root is None or run.fired:
             return
         f = sys._getframe(1)
+        running = False
         while f is not None:
             if f.f_code in self.root_codes:
-                run.ctx.count("reentrant_cancel_skipped_root_running")
-                return
+                running = True        # the root function itself is executing (it has been resumed at least once,
+                break                 # else self.root would not be known): its stale awaited Deferred has fired
             f = f.f_back
-        run.ctx.count("reentrant_cancels_while_root_waiting")
+        run.ctx.count("reentrant_cancels_while_root_running" if running else "reentrant_cancels_while_root_waiting")
         before = run.cancel_counts()
         unset = [j for j in range(M) if self.outcome[j] is None]
         try:
@@ -405,6 +427,10 @@ class H:
         if reached and self.reentrant_problem is None:
             self.reentrant_problem = ("reentrant-cancel-reached-unawaited-deferred", "a cancel() issued while the awaited nested function was running cancelled an X nobody awaits", {"reached": reached})
         self.reentrant_pending = True
+
+    def rv_count(self):
+        """Generator flavour only: the function is about to leave through the (deprecated, still supported) returnValue()."""
+        self.run.ctx.count("returnvalue_calls")
 
     def S(self, k):
         o = self.outcome[k]
@@ -419,7 +445,7 @@ class H:
         if self.diverged is not None:
             raise ReplayDiverged(self.diverged)
         self.notes.append(("obs", k, kind, r if kind == "v" else self.tok(r)))
-        if self.run is not None and self.run.still_paused[k] and self.run.resumed_while_paused is None:
+        if self.run is not None and self.run.paused_now[k] and self.run.resumed_while_paused is None:
             self.run.resumed_while_paused = k
         if self.cur == k:
             self.cur = None
@@ -462,32 +488,43 @@ def make_plan(rng):
         for k in range(1, M):
             if rng.random() < 0.4:
                 plan[k].update(hot=rng.choice(("value", "raise", "defer")), steal=rng.random() < 0.75, pre=False, chained=False)
-    if rng.random() < 0.4:
-        # fired-and-explicitly-paused X_k with 0..2 callbacks queued behind the pause; unpaused by the scheduler
-        # ("later") or not at all within the run ("never": the function must stay suspended on it)
+    if rng.random() < 0.45:
+        # explicitly pause()d X_k - any kind (plain, chained, hot): paused when built ("build", e.g. fired-and-
+        # paused) or by the scheduler, possibly while the function already waits on it ("later"); 0..2 callbacks
+        # queued behind; unpause()d by the scheduler or not at all within the run ("never": the function must
+        # stay suspended on it)
         for k in range(M):
-            if not plan[k]["hot"] and rng.random() < 0.3:
-                plan[k].update(paused={"ops": [rng.choice(("wrap", "recover", "fail")) for _ in range(rng.randint(0, 2))],
-                                       "unpause": "never" if rng.random() < 0.15 else "later"}, pre=False, chained=False)
+            if rng.random() < 0.3:
+                plan[k]["paused"] = {"when": "build" if rng.random() < 0.65 else "later",
+                                     "ops": [rng.choice(("wrap", "recover", "fail")) for _ in range(rng.randint(0, 2))],
+                                     "unpause": "never" if rng.random() < 0.12 else "later"}
+    for k in range(M):
+        p = plan[k]
+        acts = ([] if p["pre"] else ["src"]) + (["z"] if p["hot"] == "defer" else [])
+        rng.shuffle(acts)
+        if p["paused"]:
+            lo = 0
+            if p["paused"]["when"] == "later":
+                lo = rng.randint(0, len(acts))
+                acts.insert(lo, "pause")
+                lo += 1
+            if p["paused"]["unpause"] == "later":
+                acts.insert(rng.randint(lo, len(acts)), "unpause")
+        p["acts"] = acts
     spread = rng.choice((0.4, 0.4, 2.0, 10.0))
-    toks = [k for k in range(M) if not plan[k]["pre"] and not (plan[k]["paused"] and plan[k]["paused"]["unpause"] == "never")] + [k for k in range(M) if plan[k]["hot"] == "defer"]
+    toks = [k for k in range(M) for _ in plan[k]["acts"]]
     order = sorted(toks, key=lambda k: k + rng.uniform(-spread, spread))
     return plan, order
 
 
-def cancel_outcome(h, k):
-    mode = h.plan[k]["cmode"]
-    if h.plan[k]["hot"] and not h.run.raw_fired[k]:
-        mode = "default"          # a hot X_k itself has no canceller; its callback is skipped on failure
-    if mode == "succ":
-        return (True, ("cv", k), None)
-    if mode == "fail":
-        return (False, ("boom", ("cx", k)), Boom(("cx", k)))
-    return (False, "CANCELLED", None)
-
-
 class AsyncRun:
-    """Run flavour `fl` of the compiled program with plan/order, cancelling at the given suspension points."""
+    """Run flavour `fl` of the compiled program with plan/order, cancelling at the given suspension points.
+
+    Model of harness Deferred X_k: a *source* stage produces a base result (plain: the harness fires it; chained:
+    the inner Deferred y fires; hot: its callback runs and returns / raises / returns Z which fires), optionally
+    held back by an explicit pause(); then 0..2 queued callbacks transform it; then a pass-through marker callback
+    (added last at build time, so it runs right before anything the function attaches) records the moment X_k's
+    outcome exists and stores the MODEL's expectation of it in h.outcome[k]."""
 
     def __init__(self, ctx, ns, h, fl, plan, order, cancel_at, info):
         self.ctx, self.ns, self.h, self.fl = ctx, ns, h, fl
@@ -496,12 +533,16 @@ class AsyncRun:
         self.bad = None
         self.suspensions = 0
         self.cancel_log = []
-        self.raw_fired = [False] * M     # hot X_k: has X_k itself been fired (its callback may then be waiting on Z_k)
-        self.in_relay = None             # k while hot X_k's callback is executing its "fire the awaited one" part
-        self.still_paused = [False] * M  # fired-and-paused X_k not yet unpaused
+        self.in_relay = None              # k while hot X_k's callback is executing its "fire the awaited one" part
+        self.paused_now = [False] * M     # explicit pause() outstanding
+        self.x_called = [False] * M       # X_k itself has been fired (hot: its callback may still be held by a pause)
+        self.relay_state = [None] * M     # hot: None / "ran" / "skipped" (X_k failed before its callback)
+        self.base = [None] * M            # result of the source stage: (ok, token, exception object)
+        self.acts = [list(p.get("acts", ())) for p in plan]
+        self.cx, self.op_exc = {}, {}
         self.resumed_while_paused = None
-        self.stuck = None                # k if the run legitimately ends suspended on a never-unpaused X_k
-        self.paused_raw, self.paused_exc = {}, {}
+        self.model_problem = None
+        self.stuck = None                 # k if the run legitimately ends suspended on a never-unpaused X_k
 
     def violation(self, key, what, **extra):
         if self.bad:
@@ -513,119 +554,190 @@ class AsyncRun:
         w.update(extra)
         self.ctx.violation(key, what, w)
 
+    # ---- building the harness Deferreds -------------------------------------------------------
+    def canceller(self, k):
+        mode = self.plan[k]["cmode"]
+        if mode == "default":
+            return None
+        if mode == "noop":
+            return lambda d: None
+        if mode == "succ":
+            return lambda d: d.callback(("cv", k))
+        self.cx[k] = Boom(("cx", k))
+        return lambda d: d.errback(self.cx[k])
+
     def build_inputs(self):
-        tw = _tw()
-        XD, h = tw["XD"], self.h
+        XD, h = _tw()["XD"], self.h
         for k in range(M):
             p = self.plan[k]
-            mode = p["cmode"]
-            if mode == "default":
-                y = XD()
-            elif mode == "noop":
-                y = XD(lambda d: None)
-            elif mode == "succ":
-                y = XD(lambda d, k=k: d.callback(("cv", k)))
+            if p["hot"]:
+                x = XD()                                   # (no canceller: a cancelled hot X_k fails with CancelledError)
+                y = XD(self.canceller(k)) if p["hot"] == "defer" else x
+                x.addCallback(self.relay, k)
+            elif p["chained"]:
+                y = XD(self.canceller(k))
+                x = XD()
+                x.callback(None)
+                self.x_called[k] = True
+                x.addCallback(lambda _, y=y: y)
             else:
-                y = XD(lambda d, k=k: d.errback(h.outcome[k][2] if h.outcome[k] and isinstance(h.outcome[k][2], Boom) else Boom(("cx?", k))))
+                x = y = XD(self.canceller(k))
             if p["paused"]:
-                x = y = XD()              # fired now, paused, callbacks queued behind the pause
-                if p["ok"]:
-                    x.callback(("x", k))
-                else:
-                    self.paused_raw[k] = make_exc(p["exc"], ("x", k))
-                    x.errback(self.paused_raw[k])
-                x.pause()
-                self.still_paused[k] = True
+                if p["paused"]["when"] == "build":
+                    x.pause()
+                    self.paused_now[k] = True
                 for j, op in enumerate(p["paused"]["ops"]):
                     if op == "wrap":
                         x.addCallback(lambda v, j=j: ("w", j, v))
                     elif op == "recover":
                         x.addErrback(lambda f, k=k: ("rec", k))
                     else:
-                        self.paused_exc[(k, j)] = Boom(("pf", k, j))
-                        x.addCallback(lambda v, k=k, j=j: self.raise_(self.paused_exc[(k, j)]))
-            elif p["hot"]:
-                x = XD()
-                x.addCallback(self.relay, k)
-                if p["hot"] != "defer":
-                    y = x
-            elif p["chained"]:
-                x = XD()
-                x.callback(None)
-                x.addCallback(lambda _, y=y: y)
-            else:
-                x = y
+                        self.op_exc[(k, j)] = Boom(("pf", k, j))
+                        x.addCallback(lambda v, k=k, j=j: self.raise_(self.op_exc[(k, j)]))
+            x.addBoth(self.marker, k)
             h.xs.append(x)
             h.ys.append(y)
             if p["pre"]:
-                self.fire(k)
+                self.do_src(k)
 
     def raise_(self, e):
         raise e
 
-    def paused_outcome(self, k):
-        """Model of the queued callbacks: X_k's outcome once unpaused."""
-        p = self.plan[k]
-        ok, val, exc = p["ok"], ("x", k), None
-        if not ok:
-            exc = self.paused_raw[k]
-        for j, op in enumerate(p["paused"]["ops"]):
+    def expected(self, k):
+        """Model: the queued callbacks applied to the base result."""
+        ok, val, exc = self.base[k]
+        p = self.plan[k]["paused"]
+        for j, op in enumerate(p["ops"] if p else ()):
             if op == "wrap" and ok:
                 val = ("w", j, val)
             elif op == "recover" and not ok:
                 ok, val, exc = True, ("rec", k), None
             elif op == "fail" and ok:
-                ok, exc = False, self.paused_exc[(k, j)]
-        return (True, val, None) if ok else (False, self.h.tok(exc), exc)
+                ok, exc = False, self.op_exc[(k, j)]
+                val = self.h.tok(exc)
+        return (ok, val, exc)
+
+    def marker(self, r, k):
+        """Last pre-attached callback of X_k: from here on X_k has its outcome."""
+        h = self.h
+        if self.base[k] is None:
+            self.model_problem = self.model_problem or ("X%d delivered a result before the model's source stage completed" % k)
+            return r
+        h.outcome[k] = self.expected(k)
+        got = ("x", h.tok(r.value)) if isinstance(r, _tw()["Failure"]) else ("v", r)
+        want = ("v", h.outcome[k][1]) if h.outcome[k][0] else ("x", h.outcome[k][1])
+        if got != want:
+            self.model_problem = self.model_problem or ("X%d carries %r, model expected %r" % (k, got, want))
+        return r
 
     def relay(self, v, k):
         """Callback carried by hot X_k."""
         h, ctx = self.h, self.ctx
+        self.relay_state[k] = "ran"
         c = h.cur
         ctx.count("hot_callbacks_run")
         if not self.fired and self.started and c is not None and c != k and h.outcome[c] is None:
             ctx.count("hot_callback_resumed_the_waiting_function")
             self.in_relay = k
             try:
-                self.fire(c)
+                self.act(c)
             finally:
                 self.in_relay = None
         mode = self.plan[k]["hot"]
         if mode == "value":
+            self.base[k] = (True, ("hot", k), None)
             return ("hot", k)
         if mode == "raise":
-            raise h.outcome[k][2]
+            e = Boom(("hotx", k))
+            self.base[k] = (False, h.tok(e), e)
+            raise e
         return h.ys[k]
 
-    def fire(self, k):
-        """Give X_k its (next) firing: hot X_k itself first, then - for 'defer' - the Deferred its callback returned."""
-        h, p = self.h, self.plan[k]
-        if p["paused"]:
-            h.outcome[k] = self.paused_outcome(k)
-            self.still_paused[k] = False
-            self.ctx.count("paused_deferreds_unpaused")
-            h.xs[k].unpause()
-            return
-        if p["hot"] and not self.raw_fired[k]:
-            self.raw_fired[k] = True
-            if p["hot"] == "value":
-                h.outcome[k] = (True, ("hot", k), None)
-            elif p["hot"] == "raise":
-                h.outcome[k] = (False, ("boom", ("hotx", k)), Boom(("hotx", k)))
-            h.xs[k].callback(("raw", k))
-            return
+    # ---- scheduler actions ------------------------------------------------------------------------
+    def planned(self, k):
+        p = self.plan[k]
         if p["ok"]:
-            h.outcome[k] = (True, ("x", k), None)
-            h.ys[k].callback(("x", k))
+            return (True, ("x", k), None)
+        e = make_exc(p["exc"], ("x", k))
+        if p["exc"] != "boom":
+            self.ctx.count("baseexception_failures_fired_into_awaited_deferreds")
+        return (False, self.h.tok(e), e)
+
+    def fire_d(self, d, o):
+        if o[0]:
+            d.callback(o[1])
         else:
-            e = make_exc(p["exc"], ("x", k))
-            if p["exc"] != "boom":
-                self.ctx.count("baseexception_failures_fired_into_awaited_deferreds")
-            h.outcome[k] = (False, h.tok(e), e)
-            h.ys[k].errback(e)
+            d.errback(o[2])
+
+    def do_src(self, k):
+        h, p = self.h, self.plan[k]
+        if p["hot"]:
+            self.x_called[k] = True
+            h.xs[k].callback(("raw", k))        # its callback runs now, or at unpause()
+        else:
+            self.base[k] = self.planned(k)
+            self.x_called[k] = True
+            self.fire_d(h.ys[k], self.base[k])
+
+    def act(self, k, only=None):
+        """Perform X_k's next scheduled action (skipping those a cancellation has made moot)."""
+        h, p, acts = self.h, self.plan[k], self.acts[k]
+        while acts:
+            a = only if only in acts else acts[0]
+            acts.remove(a)
+            only = None
+            if a == "src":
+                if (p["hot"] or not p["chained"]) and self.x_called[k]:
+                    continue                     # cancelled before it was fired
+                if p["chained"] and self.base[k] is not None:
+                    continue
+                return self.do_src(k)
+            if a == "z":
+                if self.base[k] is not None or self.relay_state[k] == "skipped":
+                    continue
+                self.base[k] = self.planned(k)
+                return self.fire_d(h.ys[k], self.base[k])
+            if a == "pause":
+                if h.outcome[k] is not None:
+                    continue                     # already delivered: pausing it now concerns nobody
+                if h.cur == k and not self.fired:
+                    self.ctx.count("pauses_while_the_function_waits_on_the_deferred")
+                self.paused_now[k] = True
+                return h.xs[k].pause()
+            if a == "unpause":
+                if not self.paused_now[k]:
+                    continue
+                self.paused_now[k] = False
+                self.ctx.count("paused_deferreds_unpaused")
+                if p["chained"] or p["hot"]:
+                    self.ctx.count("unpauses_of_chained_or_hot_deferreds")
+                return h.xs[k].unpause()
 
     def cancel_counts(self):
         return [(x.cancel_calls, y.cancel_calls) for x, y in zip(self.h.xs, self.h.ys)]
+
+    def cancel_model(self, k):
+        """What cancel() reaching the awaited X_k does (model).  Returns (inner Deferred must be reached, base set by it)."""
+        p, mode = self.plan[k], self.plan[k]["cmode"]
+        by_mode = ((True, ("cv", k), None) if mode == "succ" else
+                   (False, ("boom", ("cx", k)), self.cx.get(k)) if mode == "fail" else (False, "CANCELLED", None))
+        if not self.x_called[k]:                               # X_k itself un-fired
+            self.x_called[k] = True
+            if p["hot"]:
+                self.relay_state[k] = "skipped"                # fails with CancelledError before its callback
+                self.base[k] = (False, "CANCELLED", None)
+                return False, True
+            self.base[k] = by_mode
+            return True, True
+        waiting_on_inner = (p["chained"] and self.base[k] is None) or \
+                           (p["hot"] == "defer" and self.relay_state[k] == "ran" and self.base[k] is None)
+        if waiting_on_inner:                                   # forwarded to the Deferred X_k waits on
+            self.base[k] = by_mode
+            return True, True
+        return False, False                                    # X_k has fired: cancel() is a no-op
+
+    def deliverable(self, k):
+        return self.base[k] is not None and not self.paused_now[k] and (not self.plan[k]["hot"] or self.relay_state[k] is not None)
 
     def do_cancel(self, d, second):
         ctx, h = self.ctx, self.h
@@ -635,17 +747,11 @@ class AsyncRun:
         suspended = not self.fired
         if suspended:
             if k is None or h.outcome[k] is not None:
-                return self.violation("harness-inconsistency", "function suspended but no un-fired X is being awaited", cur=k)
-            paused_k = self.still_paused[k]
-            hot_unfired = bool(self.plan[k]["hot"]) and not self.raw_fired[k]
-            if paused_k:
-                # X_k has fired already (it is only paused): cancel() reaches it but is a no-op; its outcome
-                # still arrives at unpause() and the function must stay suspended until then
+                return self.violation("harness-inconsistency", "function suspended but no X without outcome is being awaited", cur=k)
+            was_paused = self.paused_now[k]
+            inner, decided = self.cancel_model(k)
+            if was_paused:
                 ctx.count("cancellations_while_awaiting_paused_deferred")
-            else:
-                h.outcome[k] = cancel_outcome(h, k)      # what X_k will turn out to be
-            if hot_unfired:
-                self.raw_fired[k] = True
             ctx.count("cancellations_injected_while_suspended")
             if second:
                 ctx.count("second_cancellations")
@@ -662,23 +768,30 @@ class AsyncRun:
         # cancel() of an X that already has its outcome is a no-op and not judged
         reached = [j for j in unset if after[j] != before[j]]
         self.cancel_log.append({"awaiting": k if suspended else None, "reached": reached})
-        if suspended:
-            if k not in reached:
-                return self.violation("cancel-did-not-reach-awaited-deferred", "cancel() while suspended did not call cancel() on the awaited Deferred", awaiting=k, reached=reached)
-            if reached != [k]:
-                return self.violation("cancel-reached-other-deferred", "cancel() while suspended cancelled a Deferred that is not the awaited one", awaiting=k, reached=reached)
-            if after[k][1] == before[k][1] and not hot_unfired:
-                return self.violation("cancel-did-not-reach-awaited-deferred", "cancel() did not get through to the Deferred the awaited one is chained to", awaiting=k)
-            if paused_k:
-                return
+        if not suspended:
+            if reached:
+                return self.violation("cancel-after-completion-reached-deferred", "cancel() after the function finished cancelled a Deferred", reached=reached)
+            return
+        if k not in reached or after[k][0] == before[k][0]:
+            return self.violation("cancel-did-not-reach-awaited-deferred", "cancel() while suspended did not call cancel() on the awaited Deferred", awaiting=k, reached=reached)
+        if reached != [k]:
+            return self.violation("cancel-reached-other-deferred", "cancel() while suspended cancelled a Deferred that is not the awaited one", awaiting=k, reached=reached)
+        if inner and after[k][1] == before[k][1]:
+            return self.violation("cancel-did-not-reach-awaited-deferred", "cancel() did not get through to the Deferred the awaited one is chained to", awaiting=k)
+        delivered = h.outcome[k] is not None
+        if delivered != self.deliverable(k):
+            return self.violation("harness-inconsistency", "X_k's outcome after cancel(): model and Deferred disagree", awaiting=k, model_deliverable=self.deliverable(k))
+        resumed = len(h.notes) != nnotes
+        if delivered:
             o = h.outcome[k]
-            ctx.count("cancel_observed_as_cancellederror" if o[1] == "CANCELLED" else ("cancel_observed_as_canceller_value" if o[0] else "cancel_observed_as_canceller_failure"))
-            if len(h.notes) == nnotes:
+            if decided:
+                ctx.count("cancel_observed_as_cancellederror" if self.base[k][1] == "CANCELLED" else ("cancel_observed_as_canceller_value" if self.base[k][0] else "cancel_observed_as_canceller_failure"))
+            if not resumed:
                 return self.violation("function-not-resumed-by-cancellation", "the function did not observe the awaited Deferred's outcome after cancel()", awaiting=k)
             if not o[0] and any(n[0] == "await" for n in h.notes[nnotes:]):
                 ctx.count("cancel_swallowed_then_continued")
-        elif reached:
-            return self.violation("cancel-after-completion-reached-deferred", "cancel() after the function finished cancelled a Deferred", reached=reached)
+        elif resumed and self.resumed_while_paused is None:
+            return self.violation("function-resumed-without-outcome-of-awaited-deferred", "cancel() resumed the function although the awaited Deferred has no outcome yet", awaiting=k)
 
     def run(self):
         ctx, h = self.ctx, self.h
@@ -714,11 +827,11 @@ class AsyncRun:
             if self.fired or self.bad:
                 break
             if h.outcome[k] is None:
-                c = h.cur
-                if k == c and c + 1 < M and self.plan[c + 1]["steal"] and not self.raw_fired[c + 1] and h.outcome[c + 1] is None:
-                    k = c + 1        # let hot X_{c+1}'s callback fire the awaited X_c
+                c, only = h.cur, None
+                if k == c and c + 1 < M and self.plan[c + 1]["steal"] and "src" in self.acts[c + 1] and not self.x_called[c + 1]:
+                    k, only = c + 1, "src"       # let hot X_{c+1}'s callback fire the awaited X_c
                 try:
-                    self.fire(k)
+                    self.act(k, only)
                 except BaseException as e:  # noqa
                     return self.violation("exception-leaked-to-firer-of-awaited-deferred", "firing / unpausing an awaited Deferred raised", k=k, error=repr(e)[:200])
             if len(self.fired) > 1:
@@ -727,15 +840,19 @@ class AsyncRun:
             return
         if cancels and cancels[0] >= step and self.fired:      # cancellation after completion
             self.do_cancel(d, False)
+        if self.bad:
+            return
+        if self.model_problem:
+            return self.violation("harness-inconsistency", "harness model of an X disagrees with the Deferred", problem=self.model_problem)
         if h.reentrant_problem:
             key, what, extra = h.reentrant_problem
             return self.violation(key, what, **extra)
         if self.resumed_while_paused is not None:
-            return self.violation("function-resumed-while-awaited-deferred-paused", "the function observed an outcome of a fired-but-paused Deferred before unpause()",
+            return self.violation("function-resumed-while-awaited-deferred-paused", "the function observed an outcome of a paused Deferred before unpause()",
                                   await_index=self.resumed_while_paused)
         if not self.fired:
             c = h.cur
-            if c is not None and self.still_paused[c]:
+            if c is not None and self.paused_now[c] and h.outcome[c] is None:
                 self.stuck = c             # legitimately still waiting for a never-unpaused X
                 ctx.count("runs_ending_suspended_on_never_unpaused_deferred")
                 ctx.count("suspensions", self.suspensions)
@@ -747,13 +864,17 @@ class AsyncRun:
 
     def drain(self):
         """Let a still suspended function run to its end (no judgement): avoids GeneratorExit noise at collection."""
-        for _ in range(3):
+        for _ in range(4):
             for k in range(M):
-                if self.h.outcome[k] is None and not self.fired:
-                    try:
-                        self.fire(k)
-                    except BaseException:  # noqa
-                        pass
+                try:
+                    if self.h.outcome[k] is None and not self.fired:
+                        if self.acts[k]:
+                            self.act(k)
+                        elif self.paused_now[k]:
+                            self.paused_now[k] = False
+                            self.h.xs[k].unpause()
+                except BaseException:  # noqa
+                    pass
 
     def final(self):
         if self.stuck is not None:
@@ -888,8 +1009,11 @@ def run_program(ctx, i, rng):
 
 
 def run(ctx):
-    for i in ctx.cases(3000, 100000):
-        run_program(ctx, i, ctx.case_rng("prog", i))
+    import warnings
+    with warnings.catch_warnings():
+        warnings.simplefilter("ignore", DeprecationWarning)     # returnValue() is deprecated; it is still part of the API
+        for i in ctx.cases(3000, 100000):
+            run_program(ctx, i, ctx.case_rng("prog", i))
 
 
 def replay(ctx, w):
